@@ -62,6 +62,12 @@ def run_case(c):
         # the factorization is scale invariant: very large or very small tensors (norms beyond 1e154 / below 1e-154)
         f = (1e90, 1e-80)[(c['seed'] // 5) % 2]
         x.A[0] = x.A[0] * f; x.A[-1] = x.A[-1] * f
+    if c['seed'] % 2 == 1 and L >= 3:
+        # the same array object on several sites (translation-invariant bulk): sites with equal shapes and bond charges share one tensor
+        for i in range(1, L - 1):
+            for j in range(i + 1, L - 1):
+                if x.A[i].shape == x.A[j].shape and np.array_equal(x.qD[i], x.qD[j]) and np.array_equal(x.qD[i + 1], x.qD[j + 1]):
+                    x.A[j] = x.A[i]
     v0 = dense(x.A)
     n0 = snorm(v0)
     D0 = [len(q) for q in x.qD]
@@ -126,5 +132,27 @@ def run_case(c):
             fail('state_preserved', f'second call after rescaling site {site} by {fac}: |nrm*new - old| = {np.linalg.norm((nrm2 * v3 - v2).ravel())}')
         if abs(np.linalg.norm(v3.ravel()) - 1) > 1e-10:
             fail('unit_norm', f'second call after rescaling site {site} by {fac}: norm after = {np.linalg.norm(v3.ravel())!r}')
+    # history: the quantum numbers of the (canonical) object are zeroed, every entry becomes admissible and is perturbed, then the
+    # object is orthonormalized in the other direction (anything remembered from the first call about the old charges is stale)
+    if not fails and 1e-12 < n0 < 1e30 and c['entries'] in ('complex', 'real') and c['seed'] % 3 == 0:
+        try:
+            x.zero_qnumbers()
+            for i in range(len(x.A)):
+                x.A[i] = x.A[i] + 0.3 * rng.standard_normal(x.A[i].shape)
+            v4 = dense(x.A); n4 = snorm(v4)
+            mode2 = 'right' if c['mode'] == 'left' else 'left'
+            nrm4 = x.orthonormalize(mode=mode2)
+        except Exception as e:
+            fail('returns', f'orthonormalize after zero_qnumbers() raised {type(e).__name__}: {e}')
+            return dict(failures=fails, nontrivial=True, key=json.dumps(c, sort_keys=True))
+        bad = wf(x)
+        if bad:
+            fail('wf', 'after zero_qnumbers() and a second orthonormalize: ' + '; '.join(bad))
+        else:
+            v5 = dense(x.A)
+            if not abs(nrm4 - n4) <= 1e-9 * max(1.0, n4):
+                fail('nrm_is_norm', f'after zero_qnumbers(): factor {nrm4!r}, norm of the object {n4!r}')
+            if not oracle.close(nrm4 * v5, v4, tol=1e-9):
+                fail('state_preserved', f'after zero_qnumbers(): |nrm*new - old| = {np.linalg.norm((nrm4 * v5 - v4).ravel())}')
     trivial = c['qstyle'] == 'zero' and all(D == 1 for D in Ds)
     return dict(failures=fails, nontrivial=not trivial, key=json.dumps(c, sort_keys=True))
